@@ -33,7 +33,7 @@ func init() {
 			if m.C("overlapping_calls") < 10000 {
 				u = append(u, fmt.Sprintf("only %d overlapping calls", m.C("overlapping_calls")))
 			}
-			for _, c := range []string{"histories_sequential", "histories_concurrent", "snapshots_compared", "calls_eval", "calls_tryeval", "calls_dump", "calls_dumptable", "calls_failing", "programs_deep_stack", "programs_big_list_constants", "programs_event_mode", "race_histories", "list_bindings_from_refilled_buffers"} {
+			for _, c := range []string{"histories_sequential", "histories_concurrent", "snapshots_compared", "calls_eval", "calls_tryeval", "calls_dump", "calls_dumptable", "calls_failing", "programs_deep_stack", "programs_big_list_constants", "programs_event_mode", "race_histories", "list_bindings_from_refilled_buffers", "fresh_context_set_flows"} {
 				if m.C(c) == 0 {
 					u = append(u, c+" = 0")
 				}
@@ -55,6 +55,9 @@ type c07Prog struct {
 	snap      string
 	maxStack  int16
 	events    bool
+	cc        *eval.Config
+	keys      map[string]eval.VariableKey
+	expectNo  Outcome // TryEval in isolation with no variable available
 }
 
 func outcomeEq(a, b Outcome) bool {
@@ -179,7 +182,10 @@ func c07Build(w *W, r *rand.Rand, k int) *c07Prog {
 	if stratum == "deep-stack" || shared.MaxStack > 16 {
 		w.Inc("programs_deep_stack")
 	}
-	p := &c07Prog{src: src, cfg: cfg, e: shared.E, events: cfg.Events != 0, maxStack: shared.MaxStack}
+	p := &c07Prog{src: src, cfg: cfg, e: shared.E, events: cfg.Events != 0, maxStack: shared.MaxStack, cc: shared.CC, keys: map[string]eval.VariableKey{}}
+	for n, k := range shared.CC.VariableKeyMap {
+		p.keys[n] = k
+	}
 	if p.events {
 		w.Inc("programs_event_mode")
 	}
@@ -229,6 +235,7 @@ func c07Build(w *W, r *rand.Rand, k int) *c07Prog {
 		p.bindings = append(p.bindings, b)
 		p.expect = append(p.expect, ex)
 	}
+	p.expectNo, _ = callExpr(iso.E, CallTryEval, fetcherFor(Binding{Vals: map[string]interface{}{}}, nil), nil, p.events)
 	p.dump = iso.Dump
 	guard(func() (eval.Value, error) { p.table = eval.DumpTable(iso.E, false); return nil, nil })
 	guard(func() (eval.Value, error) { p.tableNoEv = eval.DumpTable(iso.E, true); return nil, nil })
@@ -244,6 +251,7 @@ type c07Result struct {
 	overlapping int64
 	switches    int64
 	pooled      int64 // list bindings served from a refilled buffer
+	setFlows    int64 // fresh library context, TryEval, Set, Eval
 }
 
 // pooledVals returns vals with every []int64/[]string value copied into the goroutine's buffer of that name and length
@@ -375,11 +383,53 @@ func c07Run(w *W, idx int, race bool) {
 					// the caller binds list variables from its own reused buffers, refilled in place for this call
 					b.Vals = pooledVals(bufs, b.Vals, &res.pooled)
 				}
-				kind := gr.Intn(10)
+				kind := gr.Intn(11)
 				if atomic.AddInt64(&active, 1) > 1 {
 					res.overlapping++
 				}
 				switch {
+				case kind == 10 && p.cfg.Undefined:
+					// (only where NewCtxFromVars gives a map-backed context: a slice-backed one reports every registered
+					// key as cached and cannot express "not available")
+					// the remote-call flow with the library's own context: a fresh context without values, TryEval,
+					// then the values are stored with Set and Eval runs on the same context. Every such context is
+					// the caller's own: what one call stores must not be visible to the next one.
+					ctx := eval.NewCtxFromVars(p.cc, nil)
+					o := guard(func() (eval.Value, error) { return p.e.TryEval(ctx) })
+					res.calls[1]++
+					res.setFlows++
+					if !outcomeEq(o, p.expectNo) {
+						res.fails = append(res.fails, fmt.Sprintf("TryEval on a fresh NewCtxFromVars(cfg, nil) context returned %s, in isolation it returns %s (goroutine %d, call %d)\n%s", o, p.expectNo, g, c, describeCase(p.src, p.cfg, Binding{})))
+						res.sigs = append(res.sigs, "call-result-differs-from-isolated/fresh-context-TryEval")
+					}
+					okSet := true
+					for n, v := range b.Vals {
+						k, reg := p.keys[n]
+						if !reg {
+							if !p.cfg.Undefined {
+								continue // a name the config does not know (a shadowed constant's twin)
+							}
+							k = eval.UndefinedVarKey
+						}
+						if err := ctx.Set(k, n, v); err != nil {
+							okSet = false
+						}
+					}
+					if okSet {
+						o2 := guard(func() (eval.Value, error) { return p.e.Eval(ctx) })
+						res.calls[0]++
+						want := p.expect[bi][0]
+						if want.Err == ErrUnbound {
+							// a variable the binding leaves out: the library's fetcher reports it in its own words
+							if o2.Err == nil {
+								res.fails = append(res.fails, fmt.Sprintf("Eval after Set on a NewCtxFromVars context returned %s although the binding leaves a needed variable out (goroutine %d, call %d)\n%s", o2, g, c, describeCase(p.src, p.cfg, b)))
+								res.sigs = append(res.sigs, "call-result-differs-from-isolated/set-then-Eval")
+							}
+						} else if !outcomeEq(o2, want) {
+							res.fails = append(res.fails, fmt.Sprintf("Eval after Set on a NewCtxFromVars context returned %s, in isolation it returns %s (goroutine %d, call %d)\n%s", o2, p.expect[bi][0], g, c, describeCase(p.src, p.cfg, b)))
+							res.sigs = append(res.sigs, "call-result-differs-from-isolated/set-then-Eval")
+						}
+					}
 				case kind < 5:
 					tr.MaxStack = p.maxStack
 					tr.Begin()
@@ -455,6 +505,7 @@ func c07Run(w *W, idx int, race bool) {
 		w.Count("overlapping_calls", res.overlapping)
 		w.Count("hook_context_switches", res.switches)
 		w.Count("list_bindings_from_refilled_buffers", res.pooled)
+		w.Count("fresh_context_set_flows", res.setFlows)
 		for i := int64(0); i < res.overlapping && i < 200; i++ {
 			w.Nontrivial(fmt.Sprint(w.Phase, w.Case), fmt.Sprint(g), fmt.Sprint(i))
 		}
